@@ -16,11 +16,12 @@ CHECKFNS = list(CF.values())
 ASSUMPTIONS = [
     "torch kernels (einsum, logsumexp) are represented by their exact-arithmetic meaning; float results are compared with the exact model inside Coq within rtol 1e-9 (float64) / 2e-4 (float32), inf/-inf/0 exactly",
     "Log semiring read through exp: the implementation gets log(v) and exp(output) is compared with the Real model",
+    "magnitude stream: the exact value is judged (all its values are moderate rationals: every term with a weight near the top / bottom of the dtype's range contains a zero factor, asserted per case by gen.magnitude_killed); a nan of the implementation is handed to the oracle as the empty interval, which it rejects (C01_nan_rejected_real/_trop); +inf is accepted only where the exact value is +inf. Log reading of that stream: the extreme log-weights +-2^1023*(1..1.5) denote positive finite reals exp(L) that are no usable rationals, the model gets 2^(+-8e) in their place -- sound because the value of a rule does not depend on the factors of annihilated terms (C01_rule_val_annihilated_terms)",
     "the model is the exact mathematics (functions of index tuples): PhysicalAxis sharing, defaults and in-place replacement of weights are implementation-side variations of the SAME mathematical input, so one oracle (Ztab) judges all of them",
 ]
 METHODS = ["fixed-point", "newton", "linear"]
 
-def run_impl(spec, sr, method, ids="explicit", rng=None, via="sum_products", patterned=False, staged=False, history=None):
+def run_impl(spec, sr, method, ids="explicit", rng=None, via="sum_products", patterned=False, staged=False, history=None, raw=None):
     """returns {nonterminal index: flat list of observations}.
     history: None, or a dict {terminal: other weights of the same shape}: the grammar is first built with THOSE
     weights and queried; then every factor's weights are replaced in place (FiniteFactor.weights setter on the
@@ -51,6 +52,7 @@ def run_impl(spec, sr, method, ids="explicit", rng=None, via="sum_products", pat
         if b.els[i] not in res:
             continue
         out[i] = [sr.obs(x) for x in dense_list(res[b.els[i]])]
+        if raw is not None: raw[str(i)] = [repr(x) for x in dense_list(res[b.els[i]])]
     if start is not None:
         s = [sr.obs(x) for x in dense_list(start)]
         if s != out.get(spec["start"]):
@@ -166,6 +168,39 @@ def run(tier, seed):
             obs = sorted(out.items())
             bycf[sr.carrier()].append((gw, weights_wire(spec, sr), obs))
             meta[sr.carrier()].append((spec, sr, method, obs, case))
+    # magnitudes: finite weights at the top / bottom of the dtype's range whose partial products overflow / underflow
+    # in terms that a zero weight (before, between or after them in edge order) annihilates; the exact value is moderate
+    n_mag = 44 if tier == "quick" else 3000
+    for i in range(n_mag):
+        spec = gen.magnitude_spec(rng)
+        assert gen.magnitude_killed(spec), "magnitude_spec: a hot node is not attached to a killer"
+        distinct.add(json.dumps(gen.spec_jsonable(spec), sort_keys=True))
+        for f in spec["features"]: feats["mag:" + f] = feats.get("mag:" + f, 0) + 1
+        gw = grammar_wire(spec)
+        hist = None
+        if i % 4 == 3:     # built with moderate weights, queried, all weights replaced in place by the extreme ones
+            hist = {el: gen.nested([spec["nlabels"][nl] for nl in spec["elabels"][el]["type"]],
+                                   lambda: rng.choices(gen.LAYER_GRID, gen.LAYER_GRID_P)[0]) for el in spec["weights"]}
+            feats["mag:history_weights_replaced"] = feats.get("mag:history_weights_replaced", 0) + 1
+        for sr0 in CONFIGS:
+            sr = MagSR(sr0)
+            method = METHODS[(i + len(sr.name)) % 3]
+            ids = ["explicit", "implicit", "mixed"][i % 3]
+            patterned = [False, "zero_default", False][i % 3]
+            opts = dict(ids=ids, patterned=patterned, staged=False, history=gen.spec_jsonable(dict(spec, weights=hist))["weights"] if hist else None)
+            case = dict(spec=gen.spec_jsonable(spec), semiring=repr(sr), method=method, stream="magnitude", build=opts,
+                        implementation_weights={str(el): [repr(sr.wconv(v)) for v in gen.flat(w)] for el, w in sorted(spec["weights"].items())},
+                        implementation_output={})
+            call = "fggs.sum_products(fgg, method=%r, semiring=%r)" % (method, sr)
+            try:
+                out = run_impl(spec, sr, method, ids=ids, rng=rng, via="both", patterned=patterned, history=hist, raw=case["implementation_output"])
+            except Exception as e:
+                violations.append(Violation("sum_products raised %r" % (e,), case=case,
+                                            call=call, corr="corr:sum_products", oracle="no exception expected on a well-formed non-recursive FGG"))
+                continue
+            obs = sorted(out.items())
+            bycf[sr.carrier()].append((gw, weights_wire(spec, sr), obs))
+            meta[sr.carrier()].append((spec, sr, method, obs, case))
     # factor graphs through singleton_fgg
     for i in range(n // 4):
         spec = singleton_spec(rng, p_empty=0.3)
@@ -208,10 +243,11 @@ def run(tier, seed):
                                             failing_input_found=False, call=call))
     s0 = meta["real"][0] if meta["real"] else None
     cov = dict(evaluations=total, distinct_nontrivial=len(distinct),
-               rule="random non-recursive FGG specs (harness/gen.py: <=4 nonterminals, <=3 rules each, <=5 nodes, <=4 edges, domain sizes 1-3, weights from {0,1/4,1/2,1,2,3,inf}, forced shapes with prob ~0.15) x {Real f64, Real f32, Log, Viterbi, Bool} x method rotating over fixed-point/newton/linear x explicit/implicit/mixed ids; a quarter of the grammars with sparse PatternedTensor weights (diagonal / expanded) where the values allow, a fifth built in two stages with a query in between (caches keyed on the grammar object); every entry of sum_products compared. PLUS (a) size-0 stream: the same generator with one node label given the EMPTY domain (its own label or the only one), nodes of it attached / unattached, internal / external, a forced unattached internal empty-domain node in about half the rules; also 30% of the singleton_fgg factor graphs; (b) layered stream (gen.layered_spec): few terminal labels reused on every level, nonterminals of arity 1-3 with mostly ONE rule and every node attached (their value is one einsum output that keeps the storage axes of the factors), parents mixing terminals and those nonterminals in random edge order, mostly non-zero weights; both streams rotate dense tensors / PatternedTensor weights whose default already is the semiring zero (-inf for Log/Viterbi, as PatternedTensor.log() gives) / sparse patterns, and a third of their cases is a HISTORY on one FGG object: built with other weights, queried, every factor's weights replaced in place through the FiniteFactor.weights setter, queried again (second answer observed). distinct_nontrivial = distinct specs with >= 2 rules or a forced shape",
+               rule="random non-recursive FGG specs (harness/gen.py: <=4 nonterminals, <=3 rules each, <=5 nodes, <=4 edges, domain sizes 1-3, weights from {0,1/4,1/2,1,2,3,inf}, forced shapes with prob ~0.15) x {Real f64, Real f32, Log, Viterbi, Bool} x method rotating over fixed-point/newton/linear x explicit/implicit/mixed ids; a quarter of the grammars with sparse PatternedTensor weights (diagonal / expanded) where the values allow, a fifth built in two stages with a query in between (caches keyed on the grammar object); every entry of sum_products compared. PLUS (a) size-0 stream: the same generator with one node label given the EMPTY domain (its own label or the only one), nodes of it attached / unattached, internal / external, a forced unattached internal empty-domain node in about half the rules; also 30% of the singleton_fgg factor graphs; (b) layered stream (gen.layered_spec): few terminal labels reused on every level, nonterminals of arity 1-3 with mostly ONE rule and every node attached (their value is one einsum output that keeps the storage axes of the factors), parents mixing terminals and those nonterminals in random edge order, mostly non-zero weights; both streams rotate dense tensors / PatternedTensor weights whose default already is the semiring zero (-inf for Log/Viterbi, as PatternedTensor.log() gives) / sparse patterns, and a third of their cases is a HISTORY on one FGG object: built with other weights, queried, every factor's weights replaced in place through the FiniteFactor.weights setter, queried again (second answer observed); (c) magnitude stream (gen.magnitude_spec, read by _sp_util.MagSR): per node label a set of HOT values; EXTREME terminals whose hot entries are finite weights at the top / bottom of the dtype's range (Real float32 2^(+-100..120), float64 2^(+-800..960): one is representable, the product of two overflows / underflows; Viterbi and Log: log-weights +-2^1023*(1..1.5), the sum of two is +-inf; occasionally 0 / moderate / literal inf), KILLER terminals (0 on hot entries) and nonterminals (0 on hot entries by induction) so that every node of every rule is attached to a killer, 2-4 extreme / nonterminal edges per rule on <= 3 nodes (>= 3 factors on a node), edges in RANDOM order (zero before / between / after the overflowing pair: features mag:overflow_then_zero, mag:zero_then_overflow, mag:underflow_then_zero, ...), 1-3 nonterminals, dense / zero-default PatternedTensor weights, a quarter as a history (built with moderate weights, queried, weights replaced in place by the extreme ones); the exact value is a moderate rational and is judged by Ztab, nan reaches the oracle as the empty interval. distinct_nontrivial = distinct specs with >= 2 rules or a forced shape",
                feature_histogram=feats, size_histogram=stats, kernel_reevaluated=nk,
                samples=[dict(spec=gen.spec_jsonable(s0[0]), semiring=repr(s0[1]), method=s0[2], observed=s0[3])] if s0 else [],
                open_items=[
+                   "proved (Props/C01.v): C01_rule_val_annihilated_terms / C01_rule_val_all_killed (a term with a zero factor is worth zero whatever the other factors, so the value of a rule is independent of the weights of annihilated terms), C01_rule_val_edge_order, C01_nan_rejected_real / _trop (the empty interval encoding nan is rejected for every exact value), C01_magnitude_example (f = g = [B,1], h = [0,1], B in {2^1000, inf, 2^-1000}, six edge orders: sp_check_real accepts 1, rejects nan and inf)",
                    "proved (Props/C01.v, generic in the semiring): C01_empty_domain_node_is_zero / C01_empty_domain_rules_Zk_zero / C01_isolated_internal_node_empty_domain (a node over an empty domain makes the rule -- and the code-shaped model's result -- zero), C01_shared_operand_independent (S(c) -> t(c) X(a,b), X(a,b) -> t(a) u(b): the variables of X are independent of the parent's), C01_check_oracle_sound (verdict 0 => observation accepted against Zk at #nonterminals), C01_Zk_is_tree_sum, C01_enum_trees_spec/NoDup, C02_kleene_is_bounded_depth, C01_Zk_stable, C01_rank_normalise, C01_nonrec_all_trees, C01_spe_eq_rule_val (+ _total_env, _none_is_zero, _body_eq), C01_sum_products_nonrec_Zk, C01_Ztab_is_Zk, C01_sum_products_eq_spec, shape corollaries; composed with C08 and C19 (Proofs/Instances_scc.v, Proofs/Instances.v): C01_nt_graph_closed (the nonterminal graph of every grammar is closed), C01_scc_order_accepted, C01_nonrecursive_iff_ranked, C01_end_to_end (+ _ranked) and the premise-free carrier instances C01_end_to_end_real / _viterbi / _bool, C01_real/_viterbi_sum_products_eq_spec, C01_real/_viterbi_Zk_is_tree_sum, C01_check_oracle_sound_trees and C01_real/_viterbi/_bool_check_oracle_sound(_trees) (verdict 0 => observation accepted against the sum over ALL derivation trees), C01_weights_keys_terminal",
                    "side condition of the end-to-end theorems: the keys of the weight table are terminals (C01_weights_keys_terminal: forallb (fun p => is_term G (fst p)) ws = true suffices); sp_check does not test it, the harness lists only weighted terminals, and a nonterminal key would surface as verdict 20 (see notes/GLUE.md)",
                    "open: the float kernels of torch (einsum, logsumexp) are compared numerically per case, not proved"])
@@ -222,6 +258,7 @@ def replay(path):
     c = r["case"]
     spec = gen.spec_from_json(c["spec"])
     sr = [s for s in CONFIGS if repr(s) == c["semiring"]][0]
+    if c.get("stream") == "magnitude": sr = MagSR(sr)
     if "via singleton_fgg" in c["method"]:
         out = run_singleton(spec, sr, c["method"].split()[0])
     elif "build" in c:
@@ -236,7 +273,7 @@ def replay(path):
 
 MANIFEST = dict(
     level="proof",
-    text="Coq: the k-th Kleene iterate of the grammar's equations equals the semiring sum over derivation trees of depth <= k of the product of factor weights (any commutative semiring); the code-shaped model of sum_product_edges / F / SCC-ordered driver is tied to it; instances Real/Log (ereal), Viterbi (trop), Bool. Correspondence: every entry of fggs.sum_products on generated non-recursive FGGs (random, with size-0 domains, layered grammars whose nonterminal values share tensor storage with the factors, zero-default PatternedTensor weights, queries repeated on one object after in-place weight replacement) is compared inside Coq with both the code-shaped model and the brute-force definition.",
+    text="Coq: the k-th Kleene iterate of the grammar's equations equals the semiring sum over derivation trees of depth <= k of the product of factor weights (any commutative semiring); the code-shaped model of sum_product_edges / F / SCC-ordered driver is tied to it; instances Real/Log (ereal), Viterbi (trop), Bool. Correspondence: every entry of fggs.sum_products on generated non-recursive FGGs (random, with size-0 domains, layered grammars whose nonterminal values share tensor storage with the factors, zero-default PatternedTensor weights, queries repeated on one object after in-place weight replacement, finite weights at the top / bottom of the float range in terms annihilated by a zero in every edge order) is compared inside Coq with both the code-shaped model and the brute-force definition.",
     note="Trusted: Coq kernel, extraction cross-checked by vm_compute, harness generators/canonicalisation; torch numerics compared within tolerance; open proof items listed in the evidence.",
     technique="Coq proof (sum over derivations = Kleene iterate) + model/implementation correspondence with the definition as oracle",
     design_ref="DESIGN.md section 6, C01")
